@@ -51,17 +51,20 @@ Section ReaderStreamLemmas.
       try (inv Hr; fail).
     destruct (is_nil (got ++ c)); inv Hr.
   Qed.
+  (** [P]: an invariant of the reader states under which no read says io.ErrUnexpectedEOF *)
+  Variable P : S -> Prop.
+  Hypothesis rd_P : forall cap s c e s', P s -> rd cap s = ((c, e), s') -> e <> EUnexp /\ (e = ENone -> P s').
   Lemma read_full_unexp : forall f want got s res s',
-    read_full_loop rd f want got s = ((res, EUnexp), s') ->
-    (forall cap s c e s', rd cap s = ((c, e), s') -> e <> EUnexp) -> res <> [].
+    read_full_loop rd f want got s = ((res, EUnexp), s') -> P s -> res <> [].
   Proof.
-    induction f as [|f IH]; intros want got s res s' Hr Hnu; cbn [read_full_loop] in Hr;
+    induction f as [|f IH]; intros want got s res s' Hr Hp; cbn [read_full_loop] in Hr;
       destruct (want <=? lenN got) eqn:Ew; try (inv Hr; fail).
     destruct (rd (want - lenN got) s) as [[c e0] s1] eqn:Hrd.
-    destruct e0; try (eapply IH; eassumption);
+    destruct (rd_P _ _ _ _ _ Hp Hrd) as (Hnu & Hn).
+    destruct e0; try (eapply IH; [eassumption|auto]);
       destruct (want <=? lenN (got ++ c)) eqn:Ew2; try (inv Hr; fail).
     - destruct (is_nil (got ++ c)) eqn:En; inv Hr. intros E. rewrite E in En. discriminate.
-    - inv Hr. exfalso. exact (Hnu _ _ _ _ _ Hrd eq_refl).
+    - inv Hr. congruence.
   Qed.
 End ReaderStreamLemmas.
 
@@ -74,11 +77,12 @@ Section VrUnder.
   Variable S : Type.
   Variable rd : N -> S -> (bytes * err) * S.
   Variable fuel : nat.
-  Hypothesis rd_no_unexp : forall cap s c e s', rd cap s = ((c, e), s') -> e <> EUnexp.
+  Variable P : S -> Prop.
+  Hypothesis rd_P : forall cap s c e s', P s -> rd cap s = ((c, e), s') -> e <> EUnexp /\ (e = ENone -> P s').
   Notation vrd := (vr_read H cfg rd fuel).
 
   Definition UInv (st : vst S) (out : bytes) : Prop :=
-    v_err st = ENone /\ v_acc st = out /\ v_rem st + lenN out = g_size cfg.
+    v_err st = ENone /\ v_acc st = out /\ v_rem st + lenN out = g_size cfg /\ P (v_u st).
 
   Lemma vr_compare_code (st : vst S) e st' :
     vr_compare H cfg st = (e, st') -> e = ENone \/ e = ECode (g_code cfg).
@@ -95,9 +99,10 @@ Section VrUnder.
     (e = EEof -> rdrains rd (v_u st) d EEof (v_u st') /\
                  lenN (out ++ d) = g_size cfg /\ g_hash cfg = H (out ++ d)).
   Proof.
-    intros Hr (Herr & Hacc & Hrem). unfold vr_read in Hr. rewrite Herr in Hr.
+    intros Hr (Herr & Hacc & Hrem & Hp). unfold vr_read in Hr. rewrite Herr in Hr.
     destruct (vr_do_read H cfg rd fuel cap st) as [[d0 e0] st0] eqn:Hdo. inv Hr.
     unfold vr_do_read in Hdo. destruct (rd cap (v_u st)) as [[data re] u'] eqn:Hrd.
+    destruct (rd_P _ _ _ _ _ Hp Hrd) as (_ & Hp').
     cbn [v_set_u v_rem v_u v_acc v_err v_cbs] in Hdo.
     destruct (v_rem st <? lenN data) eqn:Hlt; [unfold v_fail in Hdo; inv Hdo; split; intros; congruence|].
     apply N.ltb_ge in Hlt.
@@ -132,7 +137,7 @@ Section VrUnder.
             + apply read_full_none in Hf. rewrite lenN_nil in Hf. lia.
             + destruct (read_full_eof _ _ _ _ _ _ _ _ Hf) as (_ & _ & Hd).
               rewrite <- (app_nil_r d). eapply rdrains_step; eassumption.
-            + exfalso. exact (read_full_unexp _ _ _ _ _ _ _ _ Hf rd_no_unexp eq_refl).
+            + exfalso. exact (read_full_unexp _ _ _ rd_P _ _ _ _ _ _ Hf (Hp' eq_refl) eq_refl).
           - rewrite lenN_app. split; [lia|exact Hh]. }
         destruct fe; try (apply Hfin; [tauto|exact Hdo]); inv Hdo; split; intros; congruence.
       + apply N.eqb_neq in Hz. inv Hdo. split; [|intros; congruence]. intros _.
@@ -166,10 +171,10 @@ Section VrUnder.
   Qed.
 
   Corollary vr_complete_under_init u0 bs st' :
-    rdrains vrd (vinit cfg u0) bs EEof st' ->
+    P u0 -> rdrains vrd (vinit cfg u0) bs EEof st' ->
     rdrains rd u0 bs EEof (v_u st') /\ lenN bs = g_size cfg /\ g_hash cfg = H bs.
   Proof.
-    intros Hd. apply (vr_complete_under _ [] _ _ Hd). unfold UInv. cbn. rsplit; auto. unfold lenN. cbn. lia.
+    intros Hp Hd. apply (vr_complete_under _ [] _ _ Hd). unfold UInv. cbn. rsplit; auto. unfold lenN. cbn. lia.
   Qed.
 End VrUnder.
 
